@@ -2,13 +2,15 @@
 # prints the prompt given to a mutation sub-agent for one property (property text only; nothing from /verif)
 import json, sys
 pid = sys.argv[1]; n = sys.argv[2] if len(sys.argv) > 2 else "2"
+off = int(sys.argv[3]) if len(sys.argv) > 3 else 0
+wtname = sys.argv[4] if len(sys.argv) > 4 else pid
 for l in open('/verif/properties.jsonl'):
     p = json.loads(l)
     if p['id'] == pid:
         break
 else:
     sys.exit("no such property")
-wt = f"/tmp/seed/{pid}"
+wt = f"/tmp/seed/{wtname}"
 print(f"""You are helping test a verification tool for the Go library openziti/storage (an entity/CRUD framework over bbolt with a filter DSL). A scratch git worktree of the library is at {wt} (pinned commit, builds and all tests pass offline). Work ONLY inside {wt}; never touch /repo or /verif and do not read anything under /verif.
 
 Environment for every shell call:  export GOFLAGS=-mod=mod GOPROXY=off GOSUMDB=off GOTOOLCHAIN=local   (no network; nothing can be fetched). The test suite is run with:  cd {wt} && go test -vet=off -count=1 ./...
@@ -21,14 +23,14 @@ Here is a semantic property that the library is supposed to satisfy:
   quantified over: {p['quantifier']['text']}
   relevant files: {', '.join(p['anchors']['files'])}
 
-TASK: produce {n} DIFFERENT, independent source changes ("seeded bugs") to the library (non-test .go files under {wt}, not _test.go files, not generated parser code unless necessary) such that each one:
+TASK: produce {n} DIFFERENT, independent source changes (numbered {off+1}..{off+int(n)}) ("seeded bugs") to the library (non-test .go files under {wt}, not _test.go files, not generated parser code unless necessary) such that each one:
   (a) still compiles (go build ./... and go vet-less test compile),
   (b) still passes the ENTIRE existing test suite (command above) - check this by actually running it,
   (c) makes the library violate the property above, in a way a realistic programming mistake or plausible refactoring/optimisation could (off-by-one, forgotten branch, wrong variable, swapped order, missing cleanup, stale cache, wrong error return ...),
   (d) needs something SPECIFIC to manifest - a particular multi-step sequence of operations, a particular interleaving, a fault at a particular point, an unusual input value, or two cooperating sites that each look fine alone - NOT something that any ordinary use exposes at once. Subtle is better than blatant, but it must be a real violation of the property as stated (not of something stricter).
   Important: the unchanged library may already violate parts of this property for some inputs; your change must introduce a NEW violation that your demonstration shows (the demo must PASS on the unchanged tree and FAIL with your change).
 
-For each change i (1..{n}) deliver, under {wt}/seed_out/{pid}-i/ :
+For each change i ({off+1}..{off+int(n)}) deliver, under {wt}/seed_out/{pid}-i/ :
   - patch.diff : the change as a unified diff produced by `git -C {wt} diff` (only library source, applies with `git apply` to the pinned commit). Each patch must be independent (apply to the clean tree by itself).
   - a demonstration: a Go test file (e.g. demo_test.go, state in which package directory it has to be placed, as a comment in its first line like `// place in: boltz/`) or a small main program, that FAILS with the change and PASSES without it. You may use the test helpers/fixtures that exist in the package's _test files.
   - notes.md : what the change does, why the existing tests do not notice, what exactly is needed for it to manifest, and the exact commands you ran with their results (suite with change: pass; demo without change: pass; demo with change: fail).
